@@ -677,6 +677,31 @@ pub fn check_main(prop: &str, tier: Tier, extra: &dyn Fn(Tier, u64, u64, &BTreeM
             }),
         );
     }
+    // ---- regression corpus: explicit cases that once exposed a defect (repaired ones and seeded changes)
+    let corpus_dir = PathBuf::from(std::env::var("QSIM_CORPUS_DIR").unwrap_or_else(|_| "/verif/corpus".into())).join(prop);
+    let mut corpus_cases = 0u64;
+    if let Ok(rd) = std::fs::read_dir(&corpus_dir) {
+        let mut files: Vec<PathBuf> = rd.filter_map(|e| e.ok()).map(|e| e.path()).filter(|p| p.extension().map_or(false, |x| x == "json")).collect();
+        files.sort();
+        for f in files {
+            let Ok(text) = std::fs::read_to_string(&f) else { continue };
+            let case: Option<Case> = serde_json::from_str::<ReplayFile>(&text)
+                .map(|r| r.case)
+                .ok()
+                .or_else(|| serde_json::from_str::<Case>(&text).ok());
+            let Some(case) = case else {
+                harness_errors.push(format!("corpus file {} cannot be parsed", f.display()));
+                continue;
+            };
+            corpus_cases += 1;
+            for (pname, exe, _) in profiles(prop) {
+                for v in exec_in_child(&exe, &case) {
+                    found.push((pname.clone(), u64::MAX, case.clone(), v));
+                }
+                evaluations += 1;
+            }
+        }
+    }
     let ex = extra(tier, seed, planned, &first_digests);
     found.extend(ex.found);
     harness_errors.extend(ex.harness_errors);
@@ -788,6 +813,7 @@ pub fn check_main(prop: &str, tier: Tier, extra: &dyn Fn(Tier, u64, u64, &BTreeM
     coverage.insert("fault_kinds_fired".into(), serde_json::Value::Object(fault_kinds));
     coverage.insert("probes_hit".into(), serde_json::Value::Object(probes));
     coverage.insert("case_statistics".into(), serde_json::Value::Object(shapes));
+    coverage.insert("regression_corpus_cases".into(), json!(corpus_cases));
     coverage.insert("known_findings_hit".into(), json!(known_hits));
     coverage.insert("replay_files".into(), json!(replay_paths));
     coverage.insert("harness_errors".into(), json!(harness_errors));
